@@ -4,6 +4,7 @@ package fdkit
 
 import (
 	"fmt"
+	"runtime"
 	"sync"
 	"sync/atomic"
 
@@ -30,6 +31,67 @@ func (fatalHook) OnWrite(e *zapcore.CheckedEntry, _ []zapcore.Field) {
 	panic(FatalPanic{Msg: e.Message})
 }
 
+// LoggedPanic is the panic value produced by logger.Panic* with the harness logger.
+type LoggedPanic struct{ Msg string }
+
+func (f LoggedPanic) Error() string { return "PANIC-LOG: " + f.Msg }
+
+// panicMode: 0 = logger.Panic panics (recoverable by the caller's goroutine),
+// 1 = the message is recorded and only the calling goroutine ends (Goexit),
+// so a panic inside a file.d background goroutine does not kill the process.
+var panicMode atomic.Int32
+var panicMu sync.Mutex
+var panicMsgs []string
+
+// panicNotify receives a token whenever a panic is captured (capture mode). It is
+// installed per run (a channel used inside a synctest bubble must be created there).
+var panicNotify atomic.Pointer[chan struct{}]
+
+// SetPanicNotify installs (nil: removes) the channel that is signalled on a captured panic.
+func SetPanicNotify(ch chan struct{}) {
+	if ch == nil {
+		panicNotify.Store(nil)
+		return
+	}
+	panicNotify.Store(&ch)
+}
+
+// SetPanicCapture switches logger.Panic* to "record + end goroutine" mode.
+func SetPanicCapture(on bool) {
+	if on {
+		panicMode.Store(1)
+	} else {
+		panicMode.Store(0)
+	}
+}
+
+// TakeLoggedPanics returns and clears the messages recorded in capture mode.
+func TakeLoggedPanics() []string {
+	panicMu.Lock()
+	defer panicMu.Unlock()
+	m := panicMsgs
+	panicMsgs = nil
+	return m
+}
+
+type panicHook struct{}
+
+func (panicHook) OnWrite(e *zapcore.CheckedEntry, _ []zapcore.Field) {
+	if panicMode.Load() == 1 {
+		panicMu.Lock()
+		panicMsgs = append(panicMsgs, e.Message+"\n"+string(debugStack()))
+		panicMu.Unlock()
+		if ch := panicNotify.Load(); ch != nil {
+			select {
+			case *ch <- struct{}{}:
+			default:
+			}
+		}
+		runtime.Goexit()
+	}
+	panic(LoggedPanic{Msg: e.Message})
+}
+
 // ErrorCount counts Error-level log entries (some checks read it).
 var ErrorCount atomic.Int64
 
@@ -53,7 +115,7 @@ func (c countCore) Sync() error { return nil }
 // NewLogger returns a silent logger whose Fatal panics with FatalPanic instead
 // of exiting the process.
 func NewLogger() *zap.Logger {
-	return zap.New(countCore{zapcore.ErrorLevel}, zap.WithFatalHook(fatalHook{}))
+	return zap.New(countCore{zapcore.ErrorLevel}, zap.WithFatalHook(fatalHook{}), zap.WithPanicHook(panicHook{}))
 }
 
 // InstallLogger replaces file.d's global logger by NewLogger (idempotent).
